@@ -197,6 +197,9 @@ pub fn run(rep: &'static Report) {
         &cnt,
         &|case, _ws, _r, db| check_agreement(rep, &cnt, case, ROOT, db),
     );
+    for smp in cnt.samples.lock().unwrap().iter().take(3) {
+        rep.sample(smp.clone());
+    }
     let q = cnt.queries.load(Ordering::Relaxed);
     rep.set("evaluations", q);
     rep.set("enumeration", desc);
